@@ -293,6 +293,12 @@ class Apps(object):
         # the renderers behind GzipMiddleware: what the client receives, decoded, is what the renderer produced, and
         # Content-Length is the number of bytes sent
         self.gz_app = Application([('/basic', ep, render_basic), ('/json', ep, render_json_dev)], middlewares=[GzipMiddleware()])
+        from clastic.middleware import HTTPCacheMiddleware
+        from clastic.middleware.stats import StatsMiddleware
+        # every renderer behind the stock client-cache and stats middlewares: same status, same body
+        self.cache_app = Application([('/basic', ep, render_basic), ('/jsondev', ep, render_json_dev),
+                                      ('/stream', ep, JSONRender(streaming=True, dev_mode=True)), ('/jsonp', ep, JSONPRender(dev_mode=True))],
+                                     middlewares=[HTTPCacheMiddleware(max_age=30), StatsMiddleware()])
         from clastic.middleware import ContextProcessor, SimpleContextProcessor
         # the renderers behind the stock context processors: a value that is not a mutable mapping is none of their
         # business and is rendered exactly as without them
@@ -376,6 +382,20 @@ def check_value(acc, A, desc, factory, info, fresh_cache):
             if msg:
                 acc.violation('C17:%s:%s:%s' % (msg[0], gz_route.strip('/'), desc[0] if info['kind'] == 'container' else vname),
                               '%s; value %r via %s?%s behind GzipMiddleware -> %s' % (msg[1], desc, gz_route, q, res.status), case)
+    if info['kind'] != 'generator':
+        for c_route, q in (('/basic', ''), ('/jsondev', ''), ('/stream', ''), ('/jsonp', ''), ('/jsonp', 'callback=cb9')):
+            plain = wsgi.call(A.app, c_route, 'GET', query=q)
+            res = wsgi.call(A.cache_app, c_route, 'GET', query=q)
+            acc.evaluated += 1
+            acc.transitions += 2
+            acc.validated += 1
+            case = {'value': desc, 'route': c_route, 'format': None, 'accept': None, 'callback': q or None, 'method': 'GET', 'cache_app': True}
+            if plain.raised is not None:
+                continue
+            if res.raised is not None or (res.code, res.body) != (plain.code, plain.body):
+                acc.violation('C17:behind-cache:%s:%s' % (c_route.strip('/'), desc[0] if info['kind'] == 'container' else vname),
+                              'value %r via %s?%s behind HTTPCacheMiddleware + StatsMiddleware -> %s %r %r, without them %s %r'
+                              % (desc, c_route, q, res.status, res.raised, (res.body or b'')[:80], plain.status, (plain.body or b'')[:80]), case)
     from collections.abc import MutableMapping
     if info['kind'] != 'generator' and not isinstance(sample_value, MutableMapping):
         for cname, capp in (('ContextProcessor', A.ctx_app), ('SimpleContextProcessor', A.sctx_app)):
@@ -399,7 +419,7 @@ def check_value(acc, A, desc, factory, info, fresh_cache):
         method = method or 'GET'
         combos = [(f, a, cb) for f in FORMATS for a in ACCEPTS for cb in (None,)] if route == '/basic' else \
                  [(f, a, None) for f in (None, 'html') for a in (None, 'text/html')] if route in ('/basicdoc', '/basicexec') else \
-                 [(None, a, cb) for a in (None, 'text/html') for cb in ((None, 'cb9') if route.startswith('/jsonp') else (None,))]
+                 [(None, a, cb) for a in (None, 'text/html') for cb in ((None, 'cb9', '') if route.startswith('/jsonp') else (None,))]
         if method == 'DELETE':
             combos = [(f, a, None) for f in FORMATS for a in (None, 'text/html', 'application/json')]
         form_body = b''
@@ -409,7 +429,7 @@ def check_value(acc, A, desc, factory, info, fresh_cache):
             combos = [(f, a, None) for f in (None, 'html', 'json') for a in (None, 'text/html', 'application/json')]
             form_body = b'format=paperback&title=x&callback=cbform'
         for fmt, accept, cb in combos:
-            q = '&'.join(x for x in ('format=' + fmt if fmt else '', 'callback=' + cb if cb else '') if x)
+            q = '&'.join(x for x in ('format=' + fmt if fmt else '', 'callback=' + cb if cb is not None else '') if x)
             hdrs = {'Accept': accept} if accept else None
             if form_body:
                 hdrs = dict(hdrs or {}, **{'Content-Type': 'application/x-www-form-urlencoded'})
